@@ -2267,6 +2267,26 @@ class GuardIndex:
         out.extend(self._resolve_variant_temp(g, 0))
         return out
 
+    def _through_copies(self, l):
+        """`let flag = helper();` with `helper` inlined: the user variable is a plain copy of the helper's return slot (possibly through
+        the hand-over blocks of return threading); the definitions that matter are the slot's."""
+        body = self.body
+        live = body.live_blocks()
+        for _ in range(5):
+            defs = [d for d in body.defs.get(l, []) if d[0] in live]
+            if not defs or any(si == "term" for _, si in defs):
+                return l
+            srcs = set()
+            for blk, si in defs:
+                rv = body.blocks[blk].stmts[si].rv
+                if rv["k"] != "use" or rv["a"].is_const() or not rv["a"].place.is_local():
+                    return l
+                srcs.add(rv["a"].place.local)
+            if len(srcs) != 1:
+                return l
+            l = srcs.pop()
+        return l
+
     def _tested_local(self, g, locs):
         """Several locals share the guard's variable name (shadowing): the one the guard's switch actually reads."""
         body = self.body
@@ -2347,6 +2367,7 @@ class GuardIndex:
                 locs = body.local_by_name(name)
         extra = []
         live = body.live_blocks()
+        locs = [self._through_copies(l) for l in locs]
         for l in locs:
             if 1 <= l <= body.argc or body.partial_writes(l):
                 continue
@@ -2415,6 +2436,7 @@ class GuardIndex:
                 locs = body.local_by_name(name)
         if len(locs) > 1:
             locs = self._tested_local(g, locs)
+        locs = [self._through_copies(l) for l in locs]
         extra = []
         for l in locs:
             defs = [d for d in body.defs.get(l, []) if d[0] in body.live_blocks()]
